@@ -43,12 +43,15 @@ TYPES = [
     {"k": "dict", "key": {"k": "con", "o": "int", "c": {"gt": 0}}, "val": {"k": "leaf", "o": "str"}},
     {"k": "dict", "key": {"k": "leaf", "o": "date"}, "val": {"k": "list", "a": {"k": "leaf", "o": "int"}}},
     {"k": "set", "a": {"k": "leaf", "o": "int"}}, {"k": "tuplev", "a": {"k": "con", "o": "int", "c": {"gt": 0}}},
+    {"k": "leaf", "o": "decimal"}, {"k": "leaf", "o": "timedelta"},
 ]
 JUNK = st.sampled_from(["x", "abc", "", {"t": "obj"}, {"t": "list", "v": [1, "x"]}, {"t": "list", "v": ["a", "b"]}, {"t": "dict", "v": [["a", "x"]]},
                         {"t": "dict", "v": [["p", "x"]]}, {"t": "dict", "v": [["p", 1], ["q", "toolong"]]}, -5, 0, {"t": "float", "v": "nan"},
                         {"t": "list", "v": [{"t": "dict", "v": [["p", "x"]]}]}, {"t": "list", "v": [1, 2, "y", 4, "z"]}, "2020-13-45",
                         {"t": "dict", "v": [["abc", 1], ["2", 3]]}, {"t": "dict", "v": [["1", 1], ["-2", 3]]}, {"t": "dict", "v": [["2020-01-01", {"t": "list", "v": [1]}], ["zz", {"t": "list", "v": []}]]},
-                        {"t": "dict", "v": [["1", "v"], ["k", "w"]]}])
+                        {"t": "dict", "v": [["1", "v"], ["k", "w"]]},
+                        # refused with something other than TypeError / ValueError (OverflowError from int, InvalidOperation from Decimal)
+                        "inf", {"t": "float", "v": "inf"}, "-Infinity", {"t": "list", "v": [1, "inf"]}])
 DEFAULTS = {"int": 7, "str": "d", "float": {"t": "float", "v": "0.5"}}
 
 
